@@ -103,13 +103,9 @@ impl Property for C07 {
     fn id(&self) -> &'static str {
         "C07"
     }
-    fn generate(&self, rng: &mut Rng, index: u64, _tier: &str) -> Case {
-        // the program of the recorded finding runs first, on every run (see known_findings.json)
-        let forced = match index {
-            0 => Some("abort-cycle-interface"),
-            _ => None,
-        };
-        Case::single(hostcase::generate_c07(rng, forced))
+    fn generate(&self, rng: &mut Rng, _index: u64, _tier: &str) -> Case {
+        // (a recorded finding would have its program forced here, as the first cases of every run)
+        Case::single(hostcase::generate_c07(rng, None))
     }
     fn evaluate(&self, exec: &Executor, case: &Case) -> Result<Outcome, String> {
         let s = &case.scenarios[0];
